@@ -117,3 +117,12 @@ class Poller:
                 NET.on_poll(s.address)
             ready = [(s, POLLIN) for s in self.socks if NET.q(s.address)]
         return ready
+
+
+def _bind_to_random_port(self, base_addr, *a, **k):
+    Socket._port = getattr(Socket, "_port", 40000) + 1
+    self.bind(f"{base_addr}:{Socket._port}")
+    return Socket._port
+
+
+Socket.bind_to_random_port = _bind_to_random_port
